@@ -43,6 +43,11 @@ type descriptor struct {
 	// not say), only that it returns - and that it leaves nothing behind that
 	// changes the answers given after the start.
 	PreWait int `json:"preWait,omitempty"`
+	// Boundary: the first task of the first chain carries a non-interrupting
+	// boundary event (signal "bs") whose exception path holds a task; the event
+	// is delivered once, first thing, while the host waits. The exception
+	// path's token counts for completion like any other.
+	Boundary bool `json:"boundary,omitempty"`
 }
 
 func build(d descriptor) *gen.Graph {
@@ -78,6 +83,16 @@ func build(d descriptor) *gen.Graph {
 			t := b.Add(gen.KTask)
 			b.Connect(cur, t)
 			cur = t
+			if d.Boundary && i == 0 && k == 0 {
+				be := b.Add(gen.KBoundary)
+				be.AttachedTo = t.ID
+				be.CancelAct = false
+				be.Defs = []gen.EventDef{{Kind: "signal", Ref: "bs"}}
+				x := b.Add(gen.KTask)
+				xe := b.Add(gen.KEnd)
+				b.Connect(be, x)
+				b.Connect(x, xe)
+			}
 		}
 		if i == 0 && d.ForkEnd > 0 {
 			// a fork whose continuing (first listed) branch is consumed at once
@@ -299,6 +314,18 @@ func runCase(d descriptor) *result {
 			}
 			lastWasWait = false
 			r.History = append(r.History, "answer "+node)
+		case "event":
+			in.P.ConsumeEvent(drive.Signal("bs"))
+			obs = m.Event(model.Ev{Kind: "signal", Ref: "bs"})
+			if _, err := in.Quiesce(); err != nil {
+				r.Inconcl = err.Error()
+				return r
+			}
+			got := take()
+			if fmt.Sprint(got) != fmt.Sprint(obs.Requests) {
+				return fail("requests", fmt.Sprintf("after the boundary event: requests %v want %v", got, obs.Requests), nil)
+			}
+			r.History = append(r.History, "boundary event delivered")
 		case "wait":
 			newWaiter()
 			lastWasWait = true
@@ -400,6 +427,10 @@ func draw(rt *rapid.T) descriptor {
 	for i := 0; i < d.Starts; i++ {
 		d.Chain = append(d.Chain, rapid.IntRange(-1, 2).Draw(rt, "chain"))
 	}
+	if !d.Par && d.ForkEnd == 0 && d.Chain[0] >= 1 && rapid.IntRange(0, 3).Draw(rt, "boundary") == 0 {
+		d.Boundary = true
+		d.Actions = append(d.Actions, action{Kind: "event"})
+	}
 	na := rapid.IntRange(0, 8).Draw(rt, "nActions")
 	for i := 0; i < na; i++ {
 		d.Actions = append(d.Actions, action{Kind: rapid.SampledFrom([]string{"answer", "answer", "wait", "waitExpire", "waitMany", "rewait"}).Draw(rt, "kind"), Arg: rapid.IntRange(0, 5).Draw(rt, "arg")})
@@ -451,6 +482,9 @@ func TestC02Waiters(t *testing.T) {
 		}
 		if d.PreWait > 0 {
 			cls = append(cls, "waitBeforeStart")
+		}
+		if d.Boundary {
+			cls = append(cls, "boundaryPathToken")
 		}
 		nt := (r.Waits >= 2 || r.Rewait || d.Starts >= 2) && r.AnsBetween
 		rec.Case("TestC02Waiters", hash, nt, cls, map[string]any{"case": d, "history": r.History})
